@@ -23,7 +23,7 @@ ASSUMPTIONS = ["CPython object identity (id()) is what 'shared' means; the Lean 
                "decided by the identity/snapshot harness on the real objects plus the value-level model of copy/split",
                "histories whose sequence-valued arguments come from the other side (concatenate/merge share messages by design) are out of scope"]
 ROUTES = ["copy", "split", "bars", "bars-requant", "bar-copy", "track-copy", "composition-copy"]
-INPLACE = {"transpose", "setChannel", "scale", "editAbs", "editRel", "quantise", "cutoff", "qnl"}
+INPLACE = {"editAbsPeek", "editRelPeek", "editAbsFirst", "editRelFirst", "transpose", "setChannel", "scale", "editAbs", "editRel", "quantise", "cutoff", "qnl"}
 
 
 def snapshot(s):
